@@ -154,6 +154,7 @@ def krylov_rules(chk, repo, P='C14'):
         chk.floor(f'{P}.R3', n_cons, 10)
     dtype_rule(chk, repo, f'{P}.R4')
     linearity_rule(chk, repo, f'{P}.R6', consumers=(P != 'C14'))
+    bookkeeping_rule(chk, repo, f'{P}.R7')
     from . import support
     only = {'krylov.lanczos_iteration', 'krylov.arnoldi_iteration'} if P == 'C14' else None
     n5 = support.defassign_rules(chk, repo, f'{P}.R5', {'krylov'}, {}, only=only)
@@ -251,6 +252,53 @@ def linearity_rule(chk, repo, rid, consumers=True):
                 n += 1
     walk(fi.node.body, {})
     chk.floor(rid, n, 4, hard_min=4)
+    return n
+
+
+def bookkeeping_rule(chk, repo, rid):
+    """Gram-Schmidt bookkeeping: a coefficient that has been subtracted from the residual is never overwritten"""
+    chk.rule(rid, 'projection bookkeeping: inside one outer iteration, a coefficient slot (alpha[j], H[k, j]) whose value has '
+                  'been used to update the residual `w -= c * V[k]` is not assigned again with `=` (a further projection on '
+                  'the same vector must be accumulated with `+=`): the returned coefficient is the total projection removed, '
+                  'which is what makes the projected map equal the returned matrix')
+    n = 0
+    for q in ('krylov.lanczos_iteration', 'krylov.arnoldi_iteration'):
+        fi = repo.func(q)
+        resid = {norm(s_.targets[0]) for s_ in ast.walk(fi.node) if isinstance(s_, ast.Assign) and
+                 isinstance(s_.value, ast.Call) and norm(s_.value.func) == fi.params[0] and isinstance(s_.targets[0], ast.Name)}
+        outer = [l for l in fi.node.body if isinstance(l, ast.For)]
+        if not resid or not outer:
+            raise AnalysisError(f'{q}: residual vector / iteration loop not found')
+        bad = []
+        nupd = 0
+
+        def walk(stmts, consumed):
+            nonlocal nupd
+            for s_ in stmts:
+                if isinstance(s_, ast.AugAssign) and norm(s_.target) in resid:
+                    nupd += 1
+                    for x in ast.walk(s_.value):
+                        if isinstance(x, ast.Subscript) and isinstance(x.value, ast.Name) and norm(x.value) not in resid \
+                                and not norm(x.value).startswith('V'):
+                            consumed.add(norm(x))
+                elif isinstance(s_, ast.Assign):
+                    for t in s_.targets:
+                        if isinstance(t, ast.Subscript) and norm(t) in consumed:
+                            bad.append((s_, norm(t)))
+                elif isinstance(s_, (ast.For, ast.While)):
+                    walk(s_.body, consumed)
+                elif isinstance(s_, ast.If):
+                    walk(s_.body, consumed)
+                    walk(s_.orelse, consumed)
+        for l in outer:
+            walk(l.body, set())
+        chk.ob(rid, where(repo, fi, bad[0][0] if bad else outer[0]), f'{fi.name}: no coefficient is overwritten after it was '
+               f'subtracted from the residual ({nupd} residual updates)', not bad,
+               '; '.join(f'`{norm(b)[:50]}` (line {b.lineno}) overwrites `{t}`, which was already used to update the residual'
+                         for b, t in bad[:2]), key=f'{rid}|{q}')
+        if nupd == 0:
+            raise AnalysisError(f'{q}: no residual update found')
+        n += 1
     return n
 
 
